@@ -78,7 +78,10 @@ ReqsC16 == {Rq(k, n, m, p, "a.com", "", (s :> v)) : k \in {"gserve", "rserve"}, 
                                                     p \in {"/x", "/v1/x", "/nope/y/z"}, s \in FaultSites, v \in FaultVals}
            \cup {Rq("gserve", "", m, p, "c.com", "", (s :> "error")) : m \in {"GET", "POST"}, p \in {"/x", "/nope/y/z"}, s \in {"h:route", "h:404", "h:405", "mw:m"}}
            \cup {Rq(k, n, "GET", p, "a.com", "", <<>>) : k \in {"gserve", "rserve"}, n \in {"r1", "r2"}, p \in {"/x", "/v1/x"}}
-Reqs == IF ReqSel = "C16" THEN ReqsC16 ELSE ReqsC13
+RecHelpers == {[op |-> "rechelper", key |-> k, n |-> c, method |-> me, path |-> p, faults |-> (s :> v)] :
+                 k \in {"status", "write", "log", "slog"}, c \in {503}, me \in {"GET", "POST", "OPTIONS"}, p \in {"/x", "/zz"},
+                 s \in {"h:route", "h:404", "h:405", "h:opt", "mw:m"}, v \in {"error", "runtime"}}
+Reqs == IF ReqSel = "C16" THEN ReqsC16 \cup RecHelpers ELSE ReqsC13
 
 CaseOf == [fam |-> "group", cfg |-> [recovery |-> G.rec, name |-> "g"], ops |-> hist, reqs |-> Reqs]
 Emit == (Len(hist) > nbase /\ (EmitAll \/ Len(hist) - nbase >= Depth \/ alpha = "deep")) => PrintT("CASE " \o ToJson(CaseOf))
